@@ -121,7 +121,11 @@ func candidate(r *kit.Rng, rw row, spicy bool) (val, bool) {
 				continue
 			}
 		}
-		if v2ok(rw.Group, rw.Field, v.goValue()) {
+		var probe any = v.goValue()
+		if rw.Helper == "secondsToDuration" { // v1 holds integer seconds, v2 a duration text
+			probe = fmt.Sprintf("%ds", v.N)
+		}
+		if v2ok(rw.Group, rw.Field, probe) {
 			return v, true
 		}
 	}
